@@ -31,6 +31,7 @@ type TMOpts struct {
 	Space                            bool // add a whitespace (space) rule
 	K                                int  // lalr(k)
 	ArrowPerRule                     bool // `-> R<i>` on every rule (listener = reduce trace)
+	Markers                          bool // sprinkle state markers `.m0`/`.m1` into rules (deterministically)
 	ExpectSR, ExpectRR               int
 	Extra                            string // extra option lines
 }
@@ -118,9 +119,16 @@ func (g *Gram) TM(name string, o TMOpts) string {
 			if len(r.RHS) == 0 {
 				sb.WriteString("%empty")
 			}
+			markAt := -1
+			if o.Markers && i%3 == 0 {
+				markAt = i % (len(r.RHS) + 1)
+			}
 			for k, s := range r.RHS {
 				if k > 0 {
 					sb.WriteString(" ")
+				}
+				if k == markAt {
+					fmt.Fprintf(&sb, ".m%d ", i%2)
 				}
 				if s < g.NT {
 					fmt.Fprintf(&sb, "'%s'", g.SymName(s))
@@ -129,6 +137,9 @@ func (g *Gram) TM(name string, o TMOpts) string {
 				} else {
 					sb.WriteString(g.SymName(s))
 				}
+			}
+			if markAt == len(r.RHS) && len(r.RHS) > 0 {
+				fmt.Fprintf(&sb, " .m%d", i%2)
 			}
 			if r.Prec != 0 {
 				fmt.Fprintf(&sb, " %%prec '%s'", g.SymName(r.Prec))
